@@ -356,18 +356,24 @@ fn delegation(e: &Expr, newtype: &str) -> Option<String> {
             let a = toks(&inner.args[0]); if a == "rhs.0" || a == "rhs" { return Some(inner.method.to_string()); } } } } }
     None
 }
-/// `self.checked_add(rhs).expect("..")` → "checked_add"
-fn expect_of(e: &Expr) -> Option<String> {
+/// the name of the function's second parameter (`rhs` in `fn add(self, rhs: Amount)`, `other` in `fn add_assign(&mut self, other: Amount)`)
+fn second_param(f: &ImplItemFn) -> Option<String> {
+    match f.sig.inputs.iter().nth(1) { Some(FnArg::Typed(t)) => if let Pat::Ident(i) = &*t.pat { Some(i.ident.to_string()) } else { None }, _ => None }
+}
+/// `self.checked_add(rhs).expect("..")` → "checked_add"; the single argument must be the operator's own second parameter `arg`
+/// (`self.checked_add(self).expect(..)` is not this shape)
+fn expect_of(e: &Expr, arg: &str) -> Option<String> {
     if let Expr::MethodCall(ex) = e { if ex.method == "expect" { if let Expr::MethodCall(inner) = &*ex.receiver {
-        if toks(&inner.receiver) == "self" && inner.args.len() == 1 { return Some(inner.method.to_string()); } } } }
+        if toks(&inner.receiver) == "self" && inner.args.len() == 1 && toks(&inner.args[0]) == arg { return Some(inner.method.to_string()); } } } }
     None
 }
-/// `*self = *self + other` → "+"
-fn assign_of(b: &Block) -> Option<String> {
+/// `*self = *self + other` → "+"; the right operand must be the function's own second parameter `arg`
+/// (`*self = *self + Amount::ZERO` is not this shape)
+fn assign_of(b: &Block, arg: &str) -> Option<String> {
     if b.stmts.len() != 1 { return None; }
     let e = match &b.stmts[0] { Stmt::Expr(e, _) => e, _ => return None };
     if let Expr::Assign(a) = e { if toks(&a.left) == "*self" { if let Expr::Binary(bin) = &*a.right {
-        if toks(&bin.left) == "*self" && matches!(&*bin.right, Expr::Path(_)) { return Some(toks(&bin.op)); } } } }
+        if toks(&bin.left) == "*self" && matches!(&*bin.right, Expr::Path(_)) && toks(&bin.right) == arg { return Some(toks(&bin.op)); } } } }
     None
 }
 const STD_OPS: [&str; 15] = ["checked_add", "checked_sub", "checked_mul", "checked_div", "checked_rem", "wrapping_add", "wrapping_sub", "wrapping_mul", "wrapping_div", "wrapping_rem", "saturating_add", "saturating_sub", "saturating_mul", "checked_div_euclid", "checked_rem_euclid"];
@@ -383,35 +389,52 @@ fn amount_tables(ex: &mut Ex, s: &mut String, it: &Items) {
         for (tr, name, sym) in [("ops::Add", "add", "+"), ("ops::Sub", "sub", "-"), ("ops::Mul", "mul", "*"), ("ops::Div", "div", "/"), ("ops::Rem", "rem", "%")] {
             let item = format!("amount.{}.op_{}", ty, name);
             let f = it.fns.iter().find(|(t, r, n, _)| t == ty && n == name && r.starts_with(tr)).map(|x| x.3);
-            match f.and_then(|f| block_tail(&f.block)).and_then(expect_of) {
+            match f.and_then(|f| { let a = second_param(f)?; block_tail(&f.block).and_then(|e| expect_of(e, &a)) }) {
                 Some(c) if c.starts_with("checked_") && ["add", "sub", "mul", "div", "rem"].contains(&&c[8..]) => writeln!(s, "/-- `{} {}` is `expect` on this checked method -/\ndef {}_op_{} : Option Arith := some .{}", ty, sym, pre, name, &c[8..]).unwrap(),
-                _ => { ex.fail(&item, "body is not `self.checked_<op>(rhs).expect(..)`"); writeln!(s, "def {}_op_{} : Option Arith := none", pre, name).unwrap(); } }
+                _ => { ex.fail(&item, "body is not `self.checked_<op>(<the second parameter>).expect(..)`"); writeln!(s, "def {}_op_{} : Option Arith := none", pre, name).unwrap(); } }
             let aname = format!("{}_assign", name);
             let item = format!("amount.{}.op_{}", ty, aname);
             let f = it.fns.iter().find(|(t, r, n, _)| t == ty && *n == aname && r.starts_with(&format!("{}Assign", tr))).map(|x| x.3);
             let sym2arith = |x: &str| match x { "+" => Some("add"), "-" => Some("sub"), "*" => Some("mul"), "/" => Some("div"), "%" => Some("rem"), _ => None };
-            match f.and_then(|f| assign_of(&f.block)).and_then(|x| sym2arith(&x)) {
+            match f.and_then(|f| { let a = second_param(f)?; assign_of(&f.block, &a) }).and_then(|x| sym2arith(&x)) {
                 Some(a) => writeln!(s, "/-- `{} {}=` is `*self = *self <op> other` with this operator -/\ndef {}_op_{} : Option Arith := some .{}", ty, sym, pre, aname, a).unwrap(),
-                None => { ex.fail(&item, "body is not `*self = *self <op> other`"); writeln!(s, "def {}_op_{} : Option Arith := none", pre, aname).unwrap(); } }
+                None => { ex.fail(&item, "body is not `*self = *self <op> <the second parameter>`"); writeln!(s, "def {}_op_{} : Option Arith := none", pre, aname).unwrap(); } }
         }
     }
-    // the three hand-modelled bodies: emit whether they still have the reviewed shape
-    let reviewed = [
-        ("Amount", "to_signed", "{ifself.as_pico()>SignedAmount::max_value().as_pico()asu64{Err(ParsingError::TooBig)}else{Ok(SignedAmount::from_pico(self.as_pico()asi64))}}"),
-        ("SignedAmount", "to_unsigned", "{ifself.is_negative(){Err(ParsingError::Negative)}else{Ok(Amount::from_pico(self.as_pico()asu64))}}"),
-        ("SignedAmount", "positive_sub", "{ifself.is_negative()||rhs.is_negative()||rhs>self{None}else{self.checked_sub(rhs)}}"),
-        ("SignedAmount", "is_negative", "{self.0.is_negative()}"),
-        ("SignedAmount", "max_value", "{SignedAmount(i64::max_value())}"),
+    // the hand-modelled bodies: emit whether they still have the reviewed shape. `shape_*` is what the second pass (`finalize`) turns
+    // into the REVIEWED value whenever the body differs (a different structure is not a different behaviour; the tie of a restructured
+    // body is the differential run) — so `Gen.shape_*` is `true` on every tree and NO theorem may rest on it. What the translator really
+    // read is kept in `Gen.extracted_shape_*` (never replaced; no theorem depends on it; reported as EXTRACT-NOTE in the evidence).
+    let reviewed: [(&str, &str, &str, &str); 17] = [
+        ("Amount", "", "to_signed", "{ifself.as_pico()>SignedAmount::max_value().as_pico()asu64{Err(ParsingError::TooBig)}else{Ok(SignedAmount::from_pico(self.as_pico()asi64))}}"),
+        ("SignedAmount", "", "to_unsigned", "{ifself.is_negative(){Err(ParsingError::Negative)}else{Ok(Amount::from_pico(self.as_pico()asu64))}}"),
+        ("SignedAmount", "", "positive_sub", "{ifself.is_negative()||rhs.is_negative()||rhs>self{None}else{self.checked_sub(rhs)}}"),
+        ("SignedAmount", "", "is_negative", "{self.0.is_negative()}"),
+        ("SignedAmount", "", "max_value", "{SignedAmount(i64::max_value())}"),
         // C15: the two caps (`> i64::max_value() as u64`), the `negative` test of the unsigned type and the sign of the signed result
-        ("Amount", "from_str_in", "{let(negative,piconero)=parse_signed_to_piconero(s,denom)?;ifnegative{returnErr(ParsingError::Negative);}ifpiconero>i64::max_value()asu64{returnErr(ParsingError::TooBig);}Ok(Amount::from_pico(piconero))}"),
-        ("SignedAmount", "from_str_in", "{let(negative,piconero)=parse_signed_to_piconero(s,denom)?;ifpiconero>i64::max_value()asu64{returnErr(ParsingError::TooBig);}Ok(matchnegative{true=>SignedAmount(-(piconeroasi64)),false=>SignedAmount(piconeroasi64),})}"),
+        ("Amount", "", "from_str_in", "{let(negative,piconero)=parse_signed_to_piconero(s,denom)?;ifnegative{returnErr(ParsingError::Negative);}ifpiconero>i64::max_value()asu64{returnErr(ParsingError::TooBig);}Ok(Amount::from_pico(piconero))}"),
+        ("SignedAmount", "", "from_str_in", "{let(negative,piconero)=parse_signed_to_piconero(s,denom)?;ifpiconero>i64::max_value()asu64{returnErr(ParsingError::TooBig);}Ok(matchnegative{true=>SignedAmount(-(piconeroasi64)),false=>SignedAmount(piconeroasi64),})}"),
+        // C18 (review item 2): the remaining hand models of Model/AmountArith.lean and the accessors the conversions go through
+        ("SignedAmount", "", "checked_abs", "{self.0.checked_abs().map(SignedAmount)}"),
+        ("SignedAmount", "", "abs", "{SignedAmount(self.0.abs())}"),
+        ("SignedAmount", "", "signum", "{self.0.signum()}"),
+        ("Amount", "", "as_pico", "{self.0}"),
+        ("Amount", "", "from_pico", "{Amount(piconero)}"),
+        ("SignedAmount", "", "as_pico", "{self.0}"),
+        ("SignedAmount", "", "from_pico", "{SignedAmount(piconero)}"),
+        ("Amount", "", "max_value", "{Amount(u64::max_value())}"),
+        // C15 (review item 4): `Display` of both amount types — the denomination is hard-wired to Monero, formatter flags are not consulted
+        ("Amount", "fmt::Display", "fmt", "{self.fmt_value_in(f,Denomination::Monero)?;write!(f,\"{}\",Denomination::Monero)}"),
+        ("SignedAmount", "fmt::Display", "fmt", "{self.fmt_value_in(f,Denomination::Monero)?;write!(f,\"{}\",Denomination::Monero)}"),
     ];
     parser_tables(ex, s, it);
-    for (ty, name, want) in reviewed {
-        let got = find_fn(it, ty, "", name).map(|f| toks(&f.block)).unwrap_or_default();
+    for (ty, tr, name, want) in reviewed {
+        let got = find_fn(it, ty, tr, name).map(|f| toks(&f.block)).unwrap_or_default();
         let ok = got == want;
-        if !ok { ex.fail(&format!("amount.{}.{}", ty, name), &format!("body differs from the reviewed shape the hand-written model mirrors: `{}`", got)); }
-        writeln!(s, "def shape_{}_{} : Bool := {}", ty, name, ok).unwrap();
+        let dname = if tr.is_empty() { name.to_string() } else { format!("{}_{}", tr.rsplit("::").next().unwrap_or(tr), name) };
+        if !ok { ex.fail(&format!("amount.{}.{}", ty, dname), &format!("body differs from the reviewed shape the hand-written model mirrors: `{}`", got)); }
+        writeln!(s, "def shape_{}_{} : Bool := {}", ty, dname, ok).unwrap();
+        writeln!(s, "/-- as extracted from the current source (never replaced by the reviewed value; no theorem depends on it) -/\ndef extracted_shape_{}_{} : Bool := {}", ty, dname, ok).unwrap();
     }
 }
 
@@ -440,6 +463,7 @@ fn parser_tables(ex: &mut Ex, s: &mut String, it: &Items) {
         _ => { ex.fail("amount.parse.max_len", "`parse_signed_to_piconero` not found or not exactly one test `s.len() > <literal>`"); writeln!(s, "def amtMaxLen : Nat := 0").unwrap(); } }
     // visiting order: a method call is recorded after its sub-expressions, so the inner `val.checked_add` of the match arm comes after
     // the scrutinee `10_u64.checked_mul(value)` only if the scrutinee is visited first — syn visits `match` scrutinee before the arms
+    writeln!(s, "/-- the std integer methods actually found in `parse_signed_to_piconero`, in source order (never replaced by the reviewed value; no theorem depends on it) -/\ndef extracted_amtParseSites : List String := [{}]", v.ops.iter().map(|o| format!("\"{}\"", o)).collect::<Vec<_>>().join(", ")).unwrap();
     let kinds: Vec<&str> = v.ops.iter().map(|o| o.rsplit('_').next().unwrap_or("")).collect();
     if f.is_some() && kinds == ["mul", "add", "mul"] {
         for (name, doc, op) in [("amtParseMul", "digit loop: `10_u64.<this>(value)`", &v.ops[0]), ("amtParseAdd", "digit loop: `val.<this>(digit)`", &v.ops[1]), ("amtRescaleMul", "rescale loop: `10_u64.<this>(value)`", &v.ops[2])] {
@@ -903,6 +927,15 @@ mod tests {
         assert_eq!(delegation_block(&block("{ Some(Amount(self.0.wrapping_add(rhs.0))) }"), "Amount").as_deref(), Some("wrapping_add"));
         assert_eq!(delegation_block(&block("{ Some(SignedAmount(self.0.saturating_mul(rhs))) }"), "SignedAmount").as_deref(), Some("saturating_mul"));
         assert_eq!(delegation_block(&block("{ Some(Amount(self.0 + rhs.0)) }"), "Amount"), None);
+    }
+    #[test] fn operator_forms_name_their_own_parameter() {
+        let e = |src: &str| parse_str::<Expr>(src).unwrap();
+        assert_eq!(expect_of(&e("self.checked_add(rhs).expect(\"x\")"), "rhs").as_deref(), Some("checked_add"));
+        assert_eq!(expect_of(&e("self.checked_add(self).expect(\"x\")"), "rhs"), None);
+        assert_eq!(expect_of(&e("self.checked_add(Amount::ZERO).expect(\"x\")"), "rhs"), None);
+        assert_eq!(assign_of(&block("{ *self = *self + other }"), "other").as_deref(), Some("+"));
+        assert_eq!(assign_of(&block("{ *self = *self + Amount::ZERO }"), "other"), None);
+        assert_eq!(assign_of(&block("{ *self = *self + rhs }"), "other"), None);
     }
     fn parser(src: &str) -> (String, Vec<String>) {
         let f = parse_file(src).unwrap(); let it = items(&f); let mut ex = Ex { fails: vec![] }; let mut s = String::new();
